@@ -20,7 +20,7 @@ def what(sid):
         pass
     return ""
 out = ["| seed | property | result (tier) | caught by | first failing assertion | note |", "|---|---|---|---|---|---|"]
-for sid in sorted(d for d in os.listdir(os.path.join(V, "seeded")) if re.match(r"C\d\d[ab]$", d)):
+for sid in sorted(d for d in os.listdir(os.path.join(V, "seeded")) if re.match(r"C\d\d[a-d]$", d)):
     r = best.get(sid)
     if not r:
         out.append("| %s | %s | not run | | | |" % (sid, sid[:3])); continue
